@@ -559,16 +559,24 @@ def run(ctx, chk, tier="quick"):
             proposer = st.targets[0].id
     tail_ok = False
     tdesc = "no re-queue of a rejected storm"
-    for st in loop.body:
+    any_add = False
+    for st in ast.walk(loop):
         if isinstance(st, ast.If):
             tn = {x.id for x in ast.walk(st.test) if isinstance(x, ast.Name)}
-            adds = [x for x in ast.walk(st) if isinstance(x, ast.Call) and isinstance(x.func, ast.Attribute)
+            # the re-queue directly under this test (body, not a nested if's) -- at any depth of the loop body, so that
+            # `if better: ... elif candidates[storm]: free.add(storm)` and early-`continue` layouts are read alike
+            adds = [x for b_ in st.body for x in ast.walk(b_) if isinstance(x, ast.Call) and isinstance(x.func, ast.Attribute)
                     and isinstance(x.func.value, ast.Name) and x.func.value.id == free_set and x.args
                     and isinstance(x.args[-1], ast.Name) and x.args[-1].id == proposer]
-            if adds and cand_p in tn:
+            if adds:
+                any_add = True
+            if adds and cand_p in tn and not tail_ok:
                 tdesc = "if %s: %s" % (ast.unparse(st.test), ast.unparse(adds[0]))
                 # the test must require remaining candidates of this proposer
                 tail_ok = "%s[%s]" % (cand_p, proposer) in ast.unparse(st.test)
+    if not tail_ok and any_add:
+        chk.indeterminate("C02.O3", where_of(fsm, loop), "the proposer is put back into the free set, under a test this rule does not read (%s)" % tdesc)
+        tail_ok = True
     chk.ob("C02.O3", tail_ok, where_of(fsm, loop), tdesc, "a rejected storm that still has candidates goes back to the free set",
            key="find_stable_matching|requeue-rejected", why="dropping it leaves it unmatched although an overlapping rise may prefer it")
     # every storm taken from the free set proposes: between taking it and the proposal (the pop from its candidate list)
